@@ -116,6 +116,10 @@ def gen_build(bname, repo=None, usize_bytes=None, drop_hints=None):
                     regions.append((s, cur_line() - 1, 'part', p['name'], w))
                     infos.append(dict(part=p['name'], src=p['src'], module=p['mod'], cfg=p['cfg'],
                                       x_rules=dict(fired), changed_vs_pinned=w.changed,
+                                      trusted_residue_changed=(bool(p['opts'].get('ifunc_residue')) and
+                                                               ('X6-residue:' + p['opts']['ifunc_residue']) not in fired) or
+                                                              (bool(p['opts'].get('dropped_sha')) and
+                                                               ('X0-dropped:' + p['opts']['dropped_sha']) not in fired),
                                       code_tokens=w.code_tokens, annotation_tokens=w.annot_tokens,
                                       new_tokens=w.new_tokens, removed_tokens=w.removed_tokens,
                                       extraction_sha256=hashlib.sha256(' '.join(t.t for t in lex(e_text)).encode()).hexdigest()))
